@@ -69,7 +69,7 @@ def evaluate(tree, tseed=0, leaf_mode='own', extra_texts=(), check_export=False,
             return Outcome('expected_exception', name, exc=name)
         return Outcome(f'undocumented_use:{name}', f'{str(e)[:200]} (model expected: {expect})', exc=name)
     except BaseException as e:  # noqa: BLE001
-        if isinstance(e, (KeyboardInterrupt, SystemExit)) or type(e).__name__ == 'CaseTimeout':
+        if isinstance(e, (KeyboardInterrupt, SystemExit)) or type(e).__name__ in ('CaseTimeout', 'HarnessError'):
             raise
         return Outcome(f'unexpected_exception:{type(e).__name__}', str(e)[:300], exc=type(e).__name__)
 
